@@ -10,7 +10,15 @@ one() {
   git -C /repo worktree remove --force $WT >/dev/null 2>&1; rm -rf $WT
   git -C /repo worktree add -q --detach $WT HEAD || { echo "$N: cannot create worktree"; return; }
   cp /repo/Cargo.lock $WT/Cargo.lock
-  if ! git -C $WT apply /verif/seeded/$N/patch.diff 2>/dev/null; then echo "$N: PATCH DOES NOT APPLY"; git -C /repo worktree remove --force $WT; return; fi
+  ON=HEAD
+  if ! git -C $WT apply --3way /verif/seeded/$N/patch.diff >/dev/null 2>&1 || [ -n "$(git -C $WT diff --name-only --diff-filter=U)" ]; then
+    # the change was written against an older commit (before later fix: commits): evaluate it on that commit
+    BASE=$(python3 -c "import json;print(json.load(open('/verif/seeded/$N/meta.json')).get('base_commit','HEAD'))")
+    git -C $WT checkout -q -f --detach $BASE && git -C $WT reset -q --hard && cp /repo/Cargo.lock $WT/Cargo.lock
+    ON=$BASE
+    if ! git -C $WT apply /verif/seeded/$N/patch.diff 2>/dev/null; then echo "$N: PATCH DOES NOT APPLY (HEAD or $BASE)"; git -C /repo worktree remove --force $WT; return; fi
+  fi
+  git -C $WT reset -q 2>/dev/null
   CHECKS=$(python3 -c "import json;print(' '.join(json.load(open('/verif/seeded/$N/meta.json'))['caught_by'][:1]))")
   RES=""
   for P in $CHECKS; do
@@ -19,7 +27,7 @@ one() {
     RES="$RES $P:$V"
     [ "$V" = "0" ] && echo "$OUT" | tail -2 | cut -c1-200
   done
-  echo "$N ->$RES"
+  echo "$N ->$RES (on $ON)"
   H=$(python3 -c "import hashlib;print(hashlib.sha256('$WT'.encode()).hexdigest()[:10])")
   rm -rf /verif/.work/alt-$H
   git -C /repo worktree remove --force $WT
